@@ -3,6 +3,8 @@ Model of esr/generation/generator.py `node_to_string` (l.387-412): rendering of 
 expression string — a nullary label as is, `f(arg)` for a unary node, `(L)op(R)` for the binary operators in the
 infix list regenerated from the source (`ESR.Gen.NodeString.infixOps`), `f(L,R)` for every other binary node.
 The output is given as tokens of the Python-expression grammar of `ESRVerif.Model.Printer`.
+Second part: ESR's operator semantics of a labelled tree (`opSem1`, `opSem2`, `evalTreeWith`), the property's own
+definition of the value of a tree, mirroring `harness/oracle_tree.py`; used by `Props/C02b.lean` and the driver op `treeval`.
 -/
 import ESRVerif.Model.Printer
 import ESRVerif.Generated.NodeString
@@ -59,5 +61,65 @@ def labels : LTree → List String
   | .int neg n => [(if neg then "-" else "") ++ ToString.toString n]
   | .un f c => f :: labels c
   | .bin op l r => op :: (labels l ++ labels r)
+
+/-! ## ESR's operator semantics on labelled trees
+
+The property's own definition of what a tree *means* (hand-written; it mirrors `harness/oracle_tree.py`
+`UNARY`/`BINARY`/`evaluate`, the independent evaluator that the check runs against the real code, and is compared
+with it on every run through the driver op `treeval`):
+`inv u = 1/u`, `square u = u*u`, `cube u = (u*u)*u`, `sqrt_abs u = sqrt u = sqrt|u|`, `log_abs u = log u = log|u|`,
+`log10_abs u = log|u| / log 10`, `tenexp u = 10^u`, `exp`, `sin`, `abs u = Abs u = |u|`,
+`pow u v = pow_abs u v = |u|^v`, and `+ - * /`.  (`cos`, `tan` of the oracle have no counterpart here: no shipped basis
+uses them and the symbol-table evaluator of C12 does not know them either — such a label evaluates to `none`.)
+Nullary labels: a name is looked up in the valuation, an integer literal denotes itself.
+The number operations are a parameter without laws: `Float` in the driver, a `RealLike` structure (`ℝ`) in the proofs. -/
+
+structure Ops (α : Type) where
+  add : α → α → α
+  mul : α → α → α
+  sub : α → α → α
+  div : α → α → α
+  rpow : α → α → α
+  abs : α → α
+  exp : α → α
+  log : α → α
+  sin : α → α
+  sqrt : α → α
+  ofInt : Int → α
+
+variable {α : Type}
+
+/-- meaning of a unary label; `none` for a label without ESR semantics -/
+def opSem1 (O : Ops α) (f : String) (u : α) : Option α :=
+  if f = "inv" then some (O.div (O.ofInt 1) u)
+  else if f = "square" then some (O.mul u u)
+  else if f = "cube" then some (O.mul (O.mul u u) u)
+  else if f = "sqrt_abs" ∨ f = "sqrt" then some (O.sqrt (O.abs u))
+  else if f = "log_abs" ∨ f = "log" then some (O.log (O.abs u))
+  else if f = "log10_abs" then some (O.div (O.log (O.abs u)) (O.log (O.ofInt 10)))
+  else if f = "tenexp" then some (O.rpow (O.ofInt 10) u)
+  else if f = "exp" then some (O.exp u)
+  else if f = "sin" then some (O.sin u)
+  else if f = "abs" ∨ f = "Abs" then some (O.abs u)
+  else none
+
+/-- meaning of a binary label; `none` for a label without ESR semantics -/
+def opSem2 (O : Ops α) (op : String) (u v : α) : Option α :=
+  if op = "+" then some (O.add u v)
+  else if op = "*" then some (O.mul u v)
+  else if op = "-" then some (O.sub u v)
+  else if op = "/" then some (O.div u v)
+  else if op = "pow" ∨ op = "pow_abs" then some (O.rpow (O.abs u) v)
+  else none
+
+/-- the integer an `LTree.int` leaf denotes -/
+def litInt (neg : Bool) (n : Nat) : Int := if neg then -(n : Int) else (n : Int)
+
+/-- value of a labelled tree at a valuation of its names (`oracle_tree.evaluate`) -/
+def evalTreeWith (O : Ops α) : LTree → (String → α) → Option α
+  | .name s, ρ => some (ρ s)
+  | .int neg n, _ => some (O.ofInt (litInt neg n))
+  | .un f c, ρ => (evalTreeWith O c ρ).bind fun u => opSem1 O f u
+  | .bin op l r, ρ => (evalTreeWith O l ρ).bind fun u => (evalTreeWith O r ρ).bind fun v => opSem2 O op u v
 
 end ESR.NodeString
